@@ -326,6 +326,119 @@ pub fn gen_program(rng: &mut Rng, thorough: bool) -> Prog {
     Prog { g0, ncells, nobj, threads }
 }
 
+/// structured programs: thread 0 builds a chain (optionally a small tree) of fresh nodes, publishes the
+/// head in root cell 0, ages it, unlinks and drops it so that the recursive destruction runs inside the
+/// recorded part; the other threads read the structure, keep extra owners / weak pointers to inner
+/// nodes and upgrade them while the cascade runs.
+pub fn gen_chain_program(rng: &mut Rng, thorough: bool) -> Prog {
+    let k = 2 + rng.below(if thorough { 5 } else { 4 }) as usize; // nodes, slots 0..k-1 (k <= 6)
+    let nt = 1 + rng.below(3) as usize;
+    let mut t0: Vec<Vec<i64>> = vec![];
+    for i in 0..k {
+        t0.push(vec![0, i as i64]);
+    }
+    // extra handles on inner nodes, kept in slots 6 / 7
+    let keep_rc = if rng.chance(1, 3) { Some(1 + rng.below((k - 1) as u64) as usize) } else { None };
+    let keep_weak = if rng.chance(1, 2) { Some(1 + rng.below((k - 1) as u64) as usize) } else { None };
+    if let Some(j) = keep_rc {
+        t0.push(vec![6, j as i64, 6]);
+    }
+    if let Some(j) = keep_weak {
+        t0.push(vec![9, j as i64, 7]);
+    }
+    t0.push(vec![20]);
+    let tree = k >= 4 && rng.chance(1, 3);
+    if tree {
+        // node 0 gets two children (1 and 2); the rest hangs below node 1 as a chain
+        for i in (3..k).rev() {
+            t0.push(vec![31, 1, (i - 1) as i64, 0, i as i64]);
+        }
+        // 3.. hangs under 2? keep it simple: chain 1 -> 3 -> 4 ..., so relink: field0 of node 1 := node 3 was done by the loop when i-1 = 2; fix below
+        t0.clear();
+        for i in 0..k {
+            t0.push(vec![0, i as i64]);
+        }
+        if let Some(j) = keep_rc {
+            t0.push(vec![6, j as i64, 6]);
+        }
+        if let Some(j) = keep_weak {
+            t0.push(vec![9, j as i64, 7]);
+        }
+        t0.push(vec![20]);
+        // chain below node 2: 2 -> 3 -> ... -> k-1 (built from the tail)
+        for i in (3..k).rev() {
+            t0.push(vec![31, 1, (i - 1) as i64, 0, i as i64]);
+        }
+        t0.push(vec![31, 1, 0, 1, 2]); // 0.other := 2
+        t0.push(vec![31, 1, 0, 0, 1]); // 0.next := 1
+    } else {
+        for i in (1..k).rev() {
+            t0.push(vec![31, 1, (i - 1) as i64, 0, i as i64]);
+        }
+    }
+    let publish = nt > 1 || rng.chance(1, 2);
+    if publish {
+        t0.push(vec![31, 0, 0, 0, 0]); // root cell 0 := head
+    }
+    t0.push(vec![21]);
+    t0.push(vec![25, 3 + rng.below(3) as i64]); // age the links
+    if publish {
+        t0.push(vec![24, 0]); // Rc::null into slot 0
+        t0.push(vec![32, 0, 0, 0, 0, 0]); // swap: head comes back into slot 0
+    }
+    t0.push(vec![7, 0]); // drop the head
+    t0.push(vec![25, 4 + rng.below(4) as i64]); // the cascade runs here
+    t0.push(vec![25, 4]);
+    if keep_weak.is_some() {
+        t0.push(vec![13, 7, 5]); // upgrade the inner weak
+        t0.push(vec![7, 5]);
+        t0.push(vec![12, 7]);
+    }
+    if keep_rc.is_some() {
+        t0.push(vec![7, 6]);
+        t0.push(vec![25, 6]);
+    }
+    let mut threads = vec![(vec![], t0)];
+    for _ in 1..nt {
+        // readers: load the head from the root cell, walk one link, take snapshots / counted refs / weak refs
+        let mut ops: Vec<Vec<i64>> = vec![];
+        let rounds = 1 + rng.below(3);
+        for _ in 0..rounds {
+            ops.push(vec![20]);
+            ops.push(vec![30, 0, 0, 0, 0]); // slot0 := snapshot of root cell 0
+            ops.push(vec![30, 1, 0, 0, 1]); // slot1 := snapshot of head.next
+            match rng.below(4) {
+                0 => {
+                    ops.push(vec![15, 1, 2]); // counted
+                    ops.push(vec![21]);
+                    ops.push(vec![7, 2]);
+                }
+                1 => {
+                    ops.push(vec![16, 1, 2]); // weak snapshot
+                    ops.push(vec![17, 2, 3]); // counted weak
+                    ops.push(vec![21]);
+                    ops.push(vec![25, 2]);
+                    ops.push(vec![13, 3, 4]); // upgrade later
+                    ops.push(vec![7, 4]);
+                    ops.push(vec![12, 3]);
+                }
+                2 => {
+                    ops.push(vec![16, 1, 2]);
+                    ops.push(vec![18, 2, 3]); // WeakSnapshot::upgrade
+                    ops.push(vec![21]);
+                }
+                _ => {
+                    ops.push(vec![30, 1, 1, 0, 2]); // one more hop
+                    ops.push(vec![21]);
+                }
+            }
+            ops.push(vec![25, 1 + rng.below(3) as i64]);
+        }
+        threads.push((vec![], ops));
+    }
+    Prog { g0: rng.below(20) as usize, ncells: 1, nobj: 0, threads }
+}
+
 pub fn encode(p: &Prog, words: &[u64]) -> Vec<i64> {
     let mut out = vec![p.g0 as i64, p.ncells as i64, p.nobj as i64];
     out.extend(words.iter().map(|&w| w as i64));
@@ -514,7 +627,7 @@ pub fn run_case_tuned(p: &Prog, rng: &mut Rng, script: Option<Vec<usize>>, manua
                 1120 => out.push((site, 0, b as u64)),
                 121 => out.push((site, cell_of(&canon, a), 0)),
                 122 | 123 | 1022 => out.push((site, cell_of(&canon, a), cw(&canon, b) as u64)),
-                100..=119 | 130 | 1000..=1021 | 1100..=1102 | 1130 => {
+                100..=119 | 130 | 1000..=1021 | 1100..=1102 | 1108 | 1130 => {
                     let id = canon.get(a);
                     if site == 1100 {
                         *dealloc_seen.entry(id).or_insert(0) += 1;
@@ -561,6 +674,73 @@ pub fn run_case_tuned(p: &Prog, rng: &mut Rng, script: Option<Vec<usize>>, manua
                 }
             }
         }
+    }
+    // C02 (trace level): an object whose Snapshot a thread obtained inside its current critical section
+    // (load, failed-CAS current, Rc::snapshot, successful WeakSnapshot::upgrade) is neither destructed
+    // nor freed before that critical section ends
+    {
+        let nt = p.threads.len();
+        let mut depth = vec![0i64; nt];
+        let mut held: Vec<Vec<i64>> = vec![vec![]; nt];
+        let mut cur: Vec<(i64, i64)> = vec![(0, 0); nt]; // (opcode, primary object) of the operation in progress
+        let mut last_ptr: Vec<i64> = vec![0; nt];
+        for (k, st) in steps.iter().enumerate() {
+            let t = res.trace[k].tid;
+            for &(site, a, b) in st {
+                match site {
+                    1 => {
+                        cur[t] = (a, 0);
+                        last_ptr[t] = 0;
+                        if a == 21 && depth[t] == 1 {
+                            held[t].clear();
+                        }
+                    }
+                    2001 => cur[t].1 = a,
+                    2002 => last_ptr[t] = a / 16,
+                    2000 => {
+                        let (opc, prim) = cur[t];
+                        match opc {
+                            20 => depth[t] += 1,
+                            21 => depth[t] -= 1,
+                            30 => {
+                                if last_ptr[t] != 0 {
+                                    held[t].push(last_ptr[t]);
+                                }
+                            }
+                            33 if b == 0 => {
+                                if last_ptr[t] != 0 {
+                                    held[t].push(last_ptr[t]);
+                                }
+                            }
+                            14 => {
+                                if prim != 0 && depth[t] > 0 {
+                                    held[t].push(prim);
+                                }
+                            }
+                            18 if b == 1 => {
+                                if prim != 0 {
+                                    held[t].push(prim);
+                                }
+                            }
+                            _ => {}
+                        }
+                    }
+                    1101 | 1102 | 1100 => {
+                        for q in 0..nt {
+                            if depth[q] > 0 && held[q].contains(&a) {
+                                monitor.push(format!(
+                                    "PROPFAIL C02 step {}: object {} is {} (site {}) while thread {} holds a Snapshot of it obtained in its still active critical section",
+                                    k, a, if site == 1100 { "freed" } else { "destructed" }, site, q
+                                ));
+                            }
+                        }
+                    }
+                    _ => {}
+                }
+            }
+        }
+        monitor.sort();
+        monitor.dedup();
     }
     // release leftovers and the root cells, then drain the collector: every object destructed once,
     // every block freed
@@ -1056,6 +1236,66 @@ pub fn corpus() -> Vec<(&'static str, Prog, Vec<usize>, usize)> {
         script.extend(std::iter::repeat(1).take(300));
         script.extend(std::iter::repeat(0).take(100));
         out.push(("d6_upgrade_token_consumed", Prog { g0: 3, ncells: 0, nobj: 1, threads: vec![t0, t1] }, script, 64));
+    }
+    // D5: WeakSnapshot::upgrade of an object whose count is non-zero must protect it for the rest of the
+    // critical section, also against the recursive destruction that starts from an old, unlinked parent (C02)
+    {
+        // objects: 1 = G (parent), 2 = P (child).  thread 0 owns both, thread 1 holds a Weak to P.
+        let t0 = (
+            vec![(1u8, 1usize), (1u8, 2usize)],
+            vec![vec![20], vec![31, 1, 0, 0, 1], vec![21], vec![25, 4], vec![7, 0], vec![25, 2], vec![25, 6], vec![25, 4]],
+        );
+        let t1 = (
+            vec![(2u8, 2usize)],
+            vec![vec![20], vec![19, 0, 1], vec![18, 1, 2], vec![16, 2, 3], vec![21], vec![12, 0]],
+        );
+        let mut script = vec![0, 1];
+        script.extend(std::iter::repeat(0).take(11));
+        script.extend(std::iter::repeat(1).take(4));
+        script.extend(std::iter::repeat(0).take(120));
+        script.extend(std::iter::repeat(1).take(40));
+        out.push(("d5_weak_snapshot_upgrade_then_cascade", Prog { g0: 2, ncells: 0, nobj: 2, threads: vec![t0, t1] }, script, 64));
+    }
+    // D4: a child destructed by the cascade must refuse upgrades afterwards (C05 / C01)
+    {
+        let t0 = (
+            vec![(1u8, 1usize), (1u8, 2usize)],
+            vec![vec![9, 1, 5], vec![20], vec![31, 1, 0, 0, 1], vec![21], vec![25, 5], vec![7, 0], vec![25, 8], vec![25, 4],
+                 vec![13, 5, 6], vec![7, 6], vec![12, 5]],
+        );
+        let script: Vec<usize> = std::iter::repeat(0).take(400).collect();
+        out.push(("d4_upgrade_after_cascade", Prog { g0: 5, ncells: 0, nobj: 2, threads: vec![t0] }, script, 64));
+    }
+    // D7: a dropper stalled between reading the epoch and publishing its stamp must not make a child
+    // look old to the cascade while a pinned reader holds it (C02).  P has two parents: G (unlinked, its
+    // destruction pending) and H (live, published in root cell 0), plus an extra owner held by the dropper.
+    {
+        // objects: 1 = G, 2 = H, 3 = P
+        let t0 = (
+            vec![(1u8, 1usize), (1u8, 2usize), (1u8, 3usize)],
+            vec![
+                vec![20], vec![6, 2, 5], vec![31, 1, 0, 0, 2], vec![31, 1, 1, 0, 5], vec![31, 0, 0, 0, 1], vec![21], vec![25, 4],
+                // (dropper reads the epoch and stalls here)
+                vec![25, 3], vec![7, 0], vec![25, 2],
+                // (reader pins, loads H and P)
+                vec![20], vec![30, 0, 0, 0, 3], vec![24, 4], vec![31, 1, 3, 0, 4], vec![21],
+                // (the stalled dropper publishes its stamp)
+                vec![25, 3], vec![25, 3],
+            ],
+        );
+        let t1 = (vec![(1u8, 3usize)], vec![vec![7, 0]]);
+        let t2 = (vec![], vec![vec![20], vec![30, 0, 0, 0, 0], vec![30, 1, 0, 0, 1], vec![16, 1, 2], vec![21]]);
+        let mut script = vec![0, 1, 2];
+        script.extend(std::iter::repeat(0).take(14));
+        script.extend([1, 1]);
+        script.extend(std::iter::repeat(0).take(6));
+        script.extend([2, 2, 2, 2, 2]);
+        script.extend(std::iter::repeat(0).take(10));
+        script.extend([1, 1]);
+        script.extend(std::iter::repeat(0).take(200));
+        script.extend(std::iter::repeat(2).take(40));
+        script.extend(std::iter::repeat(1).take(40));
+        out.push(("d7_stalled_dropper_stale_stamp", Prog { g0: 7, ncells: 1, nobj: 3, threads: vec![t0, t1, t2] }, script, 64));
     }
     out
 }
